@@ -553,6 +553,9 @@ class Differ:
             else:
                 # This list is an Array-of-Arrays or a simple list of Scalars
                 self._diff_arrays_of_scalars(path, lhs, rhs, node_coord)
+        else:
+            # The RHS list is empty; every LHS element has been deleted
+            self._purge_document(path, lhs)
 
     # pylint: disable=too-many-locals
     def _diff_sets(
